@@ -160,12 +160,16 @@ SIM = {
     },
     "C07": {
         "props": ["C07"],
-        "extra": ["inflight_fill"],
+        "extra": ["inflight_fill", "cross_market"],
         "designs": simcore_designs(["Inv_C07_NoDueLeft"]) + simrun_designs(["Inv_C07_NoDueLeft"]),
         "profiles": [{"p_raise": 0.06, "gaps": [1, 60, 119, 120, 121, 149, 150, 151, 169, 170, 171, 279, 280, 281, 1000, 1119, 1120, 1121, 5000], "p_inplay": 0.25, "bet_delays": [1, 2, 5, 12], "p_action": 0.7, "p_cancel": 0.35},
                      {"n_markets": (2, 2), "event_processing": True, "p_inplay": 0.2, "p_action": 0.7},
+                     # requests for another market of the event / of a file carrying several markets (where the clock steps
+                     # back to the publish time of every re-delivered book)
+                     {"n_markets": (2, 3), "event_processing": True, "p_cross": 0.5, "p_action": 0.7, "p_inplay": 0.2},
+                     {"n_markets": (2, 3), "n_updates": (4, 9), "p_close": 0.5, "gaps": [1, 100, 500, 1000, 5000], "shared_file": True, "p_cross": 0.5, "market_starts": [0, 300, 700], "p_action": 0.7},
                      {"latencies": [{"place_latency": 0.001, "cancel_latency": 0.001, "update_latency": 0.001, "replace_latency": 0.001}, {"place_latency": 1.0, "cancel_latency": 0.5, "update_latency": 2.0, "replace_latency": 0.0}], "gaps": [1, 2, 500, 999, 1000, 1001, 2000, 2001]}],
-        "n_quick": 180, "n_thorough": 5000,
+        "n_quick": 300, "n_thorough": 7500,
         "rule": "publish-time gaps drawn around each configured latency (L-1, L, L+1 ms) and bet delay; every executed package must be due and none due may survive its market's update; delay charged = latency(kind) + bet delay at request time",
         "assumptions": ASSUME_SIM,
     },
